@@ -278,6 +278,9 @@ func cmdReplay(args []string) int {
 		fmt.Println("usage: symgo replay <file>")
 		return 2
 	}
+	if abs, err := filepath.Abs(args[0]); err == nil {
+		args[0] = abs
+	}
 	b, err := os.ReadFile(args[0])
 	if err != nil {
 		fmt.Println(err)
